@@ -2076,7 +2076,8 @@ func getMethod(n *node) {
 
 // boundReceiver returns the receiver of a method value or of a deferred method call,
 // as bound at its evaluation: a copy of the value for a value receiver, the address
-// of the variable for a pointer receiver. It returns nil if v is to be used as is.
+// of the variable (or the current value of a pointer variable) for a pointer receiver.
+// It returns nil if v is to be used as is.
 func boundReceiver(v reflect.Value, ptrRecv bool) *receiver {
 	if !v.IsValid() || v.Kind() == reflect.Interface {
 		return nil
@@ -2084,6 +2085,11 @@ func boundReceiver(v reflect.Value, ptrRecv bool) *receiver {
 	switch {
 	case ptrRecv && v.Kind() != reflect.Ptr && v.CanAddr():
 		return &receiver{val: v.Addr()}
+	case ptrRecv && v.Kind() == reflect.Ptr && v.CanAddr():
+		// The current value of the pointer variable, not the variable.
+		c := reflect.New(v.Type()).Elem()
+		c.Set(v)
+		return &receiver{val: c}
 	case !ptrRecv && v.Kind() != reflect.Ptr:
 		c := reflect.New(v.Type()).Elem()
 		c.Set(v)
